@@ -259,6 +259,17 @@ pub fn edge_points() -> &'static Vec<(String, BigUint, BigUint)> {
                 }
             }
         }
+        // abscissas for which an intermediate of the curve equation has a boundary Montgomery image: mont(x), mont(x^2), mont(x^3) next to 0 or p
+        let mut seen = 0;
+        for (label, x) in mont_edge_abscissas().iter() {
+            if let Some(y) = lift(x) {
+                push(label.clone(), x, &y);
+                seen += 1;
+                if seen == 12 {
+                    break;
+                }
+            }
+        }
         // y with a leading zero byte (one byte: about 1 abscissa in 128 has such a root)
         let mut x = from_limbs(&[0x1234_5678_9abc_def0, 0x0fed_cba9_8765_4321, 0x1111_2222_3333_4444, 0x5555_6666_7777_8888]);
         let mut found = 0;
@@ -274,6 +285,97 @@ pub fn edge_points() -> &'static Vec<(String, BigUint, BigUint)> {
                 }
             }
             x += 1u32;
+        }
+        out
+    })
+}
+
+/// Field elements x for which x, x^2 or x^3 has a Montgomery image (value * 2^256 mod p) within a few units of 0 or of p, or equal to a power of two:
+/// the places where a hand-written reduction after one step of the curve equation is most likely to be off. Not necessarily abscissas of curve points.
+pub fn mont_edge_abscissas() -> &'static Vec<(String, BigUint)> {
+    use std::sync::OnceLock;
+    static V: OnceLock<Vec<(String, BigUint)>> = OnceLock::new();
+    V.get_or_init(|| {
+        let p = r2::p_static();
+        let rinv = mod_inv(&(r256() % p), p).unwrap();
+        let mut targets: Vec<(String, BigUint)> = Vec::new();
+        for v in 1..=6u32 {
+            targets.push((format!("{}", v), BigUint::from(v)));
+            targets.push((format!("p-{}", v), p - v));
+        }
+        for e in [32u32, 64, 128, 192, 224] {
+            targets.push((format!("2^{}", e), BigUint::one() << e));
+        }
+        targets.push(("2^256-p".into(), r256() - p));
+        targets.push(("2^256-p-1".into(), r256() - p - 1u32));
+        let cube_exp = if (p % 3u32) == BigUint::from(2u32) { Some((p * 2u32 - 1u32) / 3u32) } else { None };
+        let mut out = Vec::new();
+        for (name, v) in targets.iter() {
+            let t = r2::fp(&(v * &rinv % p)); // the element whose Montgomery image is v
+            out.push((format!("mont(x)={}", name), t.v.clone()));
+            if let Some(r) = t.sqrt_any() {
+                out.push((format!("mont(x^2)={}", name), r.v.clone()));
+                out.push((format!("mont(x^2)={}/-x", name), (p - &r.v) % p));
+            }
+            if let Some(e) = &cube_exp {
+                let c = t.pow(e);
+                if c.sqr().mul(&c) == t {
+                    out.push((format!("mont(x^3)={}", name), c.v.clone()));
+                }
+            }
+        }
+        out
+    })
+}
+
+/// Points (x, y) that are NOT on the curve but satisfy a neighbouring equation y^2 = x^3 + (a + da) x + (b + db): what a curve-membership test with one
+/// wrong constant, one missing reduction or one misplaced carry accepts. Abscissas: small values, values next to p, and `mont_edge_abscissas`.
+pub fn near_curve_points() -> &'static Vec<(String, BigUint, BigUint)> {
+    use std::sync::OnceLock;
+    static V: OnceLock<Vec<(String, BigUint, BigUint)>> = OnceLock::new();
+    V.get_or_init(|| {
+        let pr = r2::params();
+        let p = pr.p;
+        let mut xs: Vec<(String, BigUint)> = Vec::new();
+        for v in 1..=4u32 {
+            xs.push((format!("x={}", v), BigUint::from(v)));
+            xs.push((format!("x=p-{}", v), p - v));
+        }
+        xs.extend(mont_edge_abscissas().iter().cloned());
+        let a = &pr.curve.a;
+        let b = &pr.curve.b;
+        let f = |v: i64| if v >= 0 { r2::fp(&BigUint::from(v as u64)) } else { r2::fp(&BigUint::from((-v) as u64)).neg() };
+        // (label, a', b')
+        let variants: Vec<(String, Fp, Fp)> = vec![
+            ("a+1".into(), a.add(&f(1)), b.clone()),
+            ("a-1".into(), a.add(&f(-1)), b.clone()),
+            ("a+2".into(), a.add(&f(2)), b.clone()),
+            ("a=0".into(), f(0), b.clone()),
+            ("a=+3".into(), a.neg(), b.clone()),
+            ("2a".into(), a.add(a), b.clone()),
+            ("b+1".into(), a.clone(), b.add(&f(1))),
+            ("b-1".into(), a.clone(), b.add(&f(-1))),
+            ("b=0".into(), a.clone(), f(0)),
+            ("-b".into(), a.clone(), b.neg()),
+            ("a+1,b+1".into(), a.add(&f(1)), b.add(&f(1))),
+            // a constant used in the wrong domain: plain where the Montgomery image belongs, and the other way round
+            ("b*R^-1".into(), a.clone(), b.mul(&r2::fp(&mod_inv(&(r256() % p), p).unwrap()))),
+            ("b*R".into(), a.clone(), b.mul(&r2::fp(&(r256() % p)))),
+            ("a*R^-1".into(), a.mul(&r2::fp(&mod_inv(&(r256() % p), p).unwrap())), b.clone()),
+            ("a*R".into(), a.mul(&r2::fp(&(r256() % p))), b.clone()),
+        ];
+        let mut out = Vec::new();
+        for (xl, x) in xs.iter() {
+            let xf = r2::fp(x);
+            for (vl, a2, b2) in variants.iter() {
+                let rhs = xf.sqr().mul(&xf).add(&a2.mul(&xf)).add(b2);
+                if let Some(y) = rhs.sqrt_3mod4() {
+                    if y.v.is_zero() || pr.curve.on_curve(&r2::pt(x, &y.v)) {
+                        continue;
+                    }
+                    out.push((format!("{}/{}", xl, vl), x.clone(), y.v.clone()));
+                }
+            }
         }
         out
     })
